@@ -93,11 +93,12 @@ struct BufSys {
     const char *name() const { return nm.c_str(); }
     size_t op_count() const { return ops.size(); }
 
-    // value of length n, variant w (element k): non-zero, depends on n, k and w
+    // value of length n, variant w (element k): depends on n, k and w; non-zero except for the embedded zero of variant 0
     static Str value(size_t n, unsigned w)
     {
         Str s(n, T());
         for (size_t k = 0; k < n; ++k) s[k] = (T)(0x21 + ((n * 5 + k * 7 + w * 11) % 89));
+        if (w == 0 && n >= 3) s[1] = T();  // constructor values carry an embedded zero unit followed by non-zero ones
         return s;
     }
 
